@@ -22,7 +22,7 @@ AS_MAPPER = [
 AS_ANYMOD = 'ASSUMED contract on key_transforms::is_any_modifier (external_body: its body is `keys.iter().any(closure)`, an iterator adapter without a usable specification in this Verus): it returns true iff the list contains a modifier; compared exhaustively with the real function for every list of length <= 4 over a 10-key alphabet on every run (extras: anymod_bounded; bounded, not a proof)'
 
 TB_LOOP = TB_COMMON + [
-    'the loop is verified against the CONTRACT of the Driver trait (ghost state failed/sends/reads_live/kb_pending/tab_pending/tablet/just_switched/interrupts); that RealDriver (mio readiness, EAGAIN -> Busy, ENODEV -> End, nix read/write) meets this contract is assumed, not proved',
+    'the loop is verified against the CONTRACT of the Driver trait (ghost state failed/sends/reads_live/kb_pending/tab_pending/tablet/just_switched/interrupts); that RealDriver (mio readiness, EAGAIN -> Busy, ENODEV -> End, nix read/write) meets this contract is assumed, not proved; it is exercised on every run on OS pipes (extras: real_driver_pipes_c10 / _c20; bounded, not a proof)',
     'E4: only WorkingRepeat, Device, PollResult, trait Driver, Next and do_remapping_loop_one_device of remapping_loop.rs are part of the verified text; the thread spawning / device discovery around them is not',
     'Instant / Duration are modelled as mathematical integers of nanoseconds through axioms on vstd AddSpec / SubSpec / PartialOrdSpec (Instant + Duration is allowed only for durations of at most i32::MAX ms; Instant - Instant saturates at zero)',
     'Mapper::step / release_all / for_layout / is_held_on_output are used through their contracts, which the mapper unit proves',
@@ -58,10 +58,10 @@ PROPS = {
                     'clause (ii) is proved for the end of the step (if the step pressed a non-modifier key, the absorbed key is not held afterwards unless a mapping in effect outputs it), not for every instant inside the step'],
                 witness='mapper', rests_on=['C19', 'C03']),
     'C09': dict(units=['mapper'], level='proof', trusted_base=TB_MAPPER, assumptions=AS_MAPPER, witness='mapper', rests_on=['C03']),
-    'C10': dict(units=['loop'], level='proof', trusted_base=TB_LOOP, assumptions=AS_LOOP, witness='loop'),
+    'C10': dict(units=['loop'], level='proof', trusted_base=TB_LOOP, assumptions=AS_LOOP, witness='loop', extras=['real_driver_pipes_c10']),
     'C11': dict(units=['loop'], level='proof', trusted_base=TB_LOOP, assumptions=AS_LOOP, witness='loop', rests_on=['C09']),
     'C12': dict(units=['loop'], level='proof', trusted_base=TB_LOOP, assumptions=AS_LOOP, witness='loop'),
-    'C20': dict(units=['loop'], level='proof', trusted_base=TB_LOOP, assumptions=AS_LOOP, witness='loop'),
+    'C20': dict(units=['loop'], level='proof', trusted_base=TB_LOOP, assumptions=AS_LOOP, witness='loop', extras=['real_driver_pipes_c20']),
     'C14': dict(units=['converter', 'mapper', 'glue'], level='proof', trusted_base=TB_MAPPER + TB_CONV[4:], assumptions=AS_CONV + AS_MAPPER, witness='loader'),
     'C13': dict(units=['converter'], level='proof', trusted_base=TB_CONV + [
                     'E5 accessors: CHAR_ACCESS_MAP.get / US_KEYBOARD_LAYOUT.get are assumed to be functions of their argument (uninterpreted cam_entry / ukl_row); that these functions ARE the US-QWERTY layout is decided by the complete enumeration tables_enum (every Unicode scalar value, every row), reported as enumerative',
@@ -109,12 +109,9 @@ for _p, _t in (('C13', 'C14'), ('C14', 'C13')):
     _r = list(PROPS[_p].get('rests_on') or [])
     if _t not in _r: _r.append(_t)
     PROPS[_p]['rests_on'] = _r
-# the same holds for the four properties of the per-device loop and its four invariants
-for _p in ('C10', 'C11', 'C12', 'C20'):
-    _r = list(PROPS[_p].get('rests_on') or [])
-    for _t in ('C10', 'C11', 'C12', 'C20'):
-        if _t != _p and _t not in _r: _r.append(_t)
-    PROPS[_p]['rests_on'] = _r
+# the per-device loop: its four invariants are labelled separately and depend on each other only weakly; the timer invariant (C11) uses the
+# tablet-mode invariant (C12)
+PROPS['C11']['rests_on'] = list(PROPS['C11'].get('rests_on') or []) + ['C12']
 for _p in ('C01', 'C02', 'C03', 'C04', 'C05', 'C06', 'C07', 'C08', 'C09', 'C19', 'C14'):
     _r = list(PROPS[_p].get('rests_on') or [])
     for _t in _INV_TAGS:
